@@ -155,6 +155,15 @@ class Typer:
             kind, obj = self.prog.resolve_dotted(m, d)
             if kind == "class":
                 return ("cls", obj.name)  # type: ignore[union-attr]
+            if kind == "const" and getattr(self, "_alias_depth", 0) < 4:
+                # a module-level type alias: `BranchRegion = tuple[str, set[str]] | None`
+                mm, val = obj  # type: ignore[misc]
+                if isinstance(val, (ast.Subscript, ast.BinOp, ast.Name, ast.Attribute)) or (isinstance(val, ast.Constant) and isinstance(val.value, str)):
+                    self._alias_depth = getattr(self, "_alias_depth", 0) + 1
+                    try:
+                        return self.ann(mm, val)
+                    finally:
+                        self._alias_depth -= 1
             if kind == "external":
                 return ("ext", obj)
             if d in self.prog.classes:
